@@ -9,6 +9,7 @@
  * the real parser is compared with it.
  */
 #define NH 4
+#define NO_OUTLOG   /* this harness never looks at the raw output log */
 #include "world.h"
 
 #ifndef SHAPESTR
